@@ -48,10 +48,32 @@ func (c *fctx) isSpecialCall(call *ast.CallExpr) bool {
 	}
 	m, _ := c.stdMethod(call)
 	switch m {
-	case "bytes.Buffer.Bytes", "bytes.Buffer.Write", "bufio.Reader.ReadByte", "bytes.Reader.ReadByte":
+	case "bytes.Buffer.Bytes", "bytes.Buffer.Write", "bufio.Reader.ReadByte", "bytes.Reader.ReadByte",
+		"hash.Hash.Write", "hash.Hash.Sum", "hash.Hash.Reset", "hash.Hash.Size":
+		return true
+	}
+	if c.pkgFunc(call) == "crypto/hmac.New" {
 		return true
 	}
 	return false
+}
+
+// hmac.New(sha256.New, key): the hash number of Prims.mac
+func (c *fctx) hashNumber(e ast.Expr) string {
+	if sel, ok := e.(*ast.SelectorExpr); ok && sel.Sel.Name == "New" {
+		if p, ok := c.isPkgIdent(sel.X); ok {
+			switch p {
+			case "crypto/md5":
+				return "0"
+			case "crypto/sha1":
+				return "1"
+			case "crypto/sha256":
+				return "2"
+			}
+		}
+	}
+	c.fail(e, "hash constructor")
+	return ""
 }
 
 func (c *fctx) errNone() string {
@@ -87,11 +109,23 @@ func (c *fctx) specialCallExpr(call *ast.CallExpr) (string, bool) {
 	switch c.pkgFunc(call) {
 	case "bytes.NewReader", "bufio.NewReader":
 		return c.expr(call.Args[0]), true
+	case "crypto/hmac.New":
+		return "(Go.Mac.new " + c.hashNumber(call.Args[0]) + " " + c.expr(call.Args[1]) + ")", true
 	}
 	m, recv := c.stdMethod(call)
 	switch m {
 	case "bytes.Buffer.Bytes":
 		return c.expr(recv), true
+	case "hash.Hash.Sum":
+		c.fi.usesPrims = true
+		arg := "[]"
+		if id, ok := call.Args[0].(*ast.Ident); !ok || id.Name != "nil" {
+			arg = c.expr(call.Args[0])
+		}
+		return "(Go.Mac.sum P " + c.expr(recv) + " " + arg + ")", true
+	case "hash.Hash.Size":
+		c.fi.usesPrims = true
+		return "((Go.Mac.size P " + c.expr(recv) + " : Nat) : Int)", true
 	}
 	return "", false
 }
@@ -133,6 +167,16 @@ func (c *fctx) specialAssign(s *ast.AssignStmt) bool {
 	call, ok := s.Rhs[0].(*ast.CallExpr)
 	if !ok {
 		return false
+	}
+	if m, recv := c.stdMethod(call); m == "hash.Hash.Write" {
+		if len(s.Lhs) != 2 {
+			c.fail(s, "Write results")
+		}
+		x := c.expr(call.Args[0])
+		c.lvalSet(recv, "(Go.Mac.write "+c.expr(recv)+" "+x+")")
+		c.lvalSet(s.Lhs[0], "("+x+".length : Int)")
+		c.lvalSet(s.Lhs[1], c.errNone())
+		return true
 	}
 	if m, recv := c.stdMethod(call); m == "bufio.Reader.ReadByte" || m == "bytes.Reader.ReadByte" {
 		if len(s.Lhs) != 2 {
@@ -186,6 +230,12 @@ func (c *fctx) checkBigEndian(e ast.Expr) {
 func (c *fctx) specialCallStmt(call *ast.CallExpr) bool {
 	if m, recv := c.stdMethod(call); m == "bytes.Buffer.Write" {
 		c.lvalSet(recv, "("+c.expr(recv)+" ++ "+c.expr(call.Args[0])+")")
+		return true
+	} else if m == "hash.Hash.Write" {
+		c.lvalSet(recv, "(Go.Mac.write "+c.expr(recv)+" "+c.expr(call.Args[0])+")")
+		return true
+	} else if m == "hash.Hash.Reset" {
+		c.lvalSet(recv, "(Go.Mac.reset "+c.expr(recv)+")")
 		return true
 	}
 	switch c.pkgFunc(call) {
